@@ -39,7 +39,10 @@ inductive CM where
 def CM.test : CM → Char → Bool
   | .lit c, x => x == c
   | .dot, x => x != sep
-  | .cls neg rs, x => (rs.any fun r => r.1.toNat ≤ x.toNat && x.toNat ≤ r.2.toNat) != neg
+  | .cls neg rs, x =>
+    -- in `_lines` the separator is the newline (code 10): ranges are compared against that code
+    let n := if x == sep then 10 else x.toNat
+    (rs.any fun r => r.1.toNat ≤ n && n ≤ r.2.toNat) != neg
   | .never, _ => false
 
 /-- Split at the first `]`: `(before, after)`. -/
